@@ -62,11 +62,13 @@ def upgrade():
         )
 
     elif op.get_bind().dialect.name == "sqlite":
+        # datetime() formats to whole seconds (and rounds at .9995), so shift only the
+        # 'YYYY-MM-DD HH:MM:SS' prefix and keep the stored fractional seconds as they are.
         op.execute(
             """
             update job set
-              start_time = datetime(start_time, 'utc'),
-              end_time = datetime(end_time, 'utc');
+              start_time = datetime(substr(start_time, 1, 19), 'utc') || substr(start_time, 20),
+              end_time = datetime(substr(end_time, 1, 19), 'utc') || substr(end_time, 20);
             """
         )
 
@@ -96,7 +98,7 @@ def downgrade():
         op.execute(
             """
             update job set
-              start_time = datetime(start_time, 'localtime'),
-              end_time = datetime(end_time, 'localtime');
+              start_time = datetime(substr(start_time, 1, 19), 'localtime') || substr(start_time, 20),
+              end_time = datetime(substr(end_time, 1, 19), 'localtime') || substr(end_time, 20);
             """
         )
